@@ -38,13 +38,18 @@ IJ(hist, nuanc, E, j) ==
     RAdd(RSum([e \in 1..Len(hist) |-> RMul(Pref(E, e, j), RMul(RDiv(hist[e].nu, Pairs(j)), RSub("1", E[e][j])))]),
          RMul(Pref(E, Len(hist) + 1, j), RDiv(nuanc, Pairs(j))))
 \* expected time (units of 2*Nref generations) during which the sample has k ancestors
-ETk(n, hist, nuanc, E, k) == RSum([j \in k..n |-> RMul(Coef(n, j, k), IJ(hist, nuanc, E, j))])
+ETkFrom(n, IJt, k) == RSum([j \in k..n |-> RMul(Coef(n, j, k), IJt[j])])
+ETk(n, hist, nuanc, E, k) == ETkFrom(n, [j \in 2..n |-> IJ(hist, nuanc, E, j)], k)
 \* probability that a lineage present when there are k ancestors has b descendants in the sample
 Desc(n, k, b) == RDiv(RBinom(n - b - 1, k - 2), RBinom(n - 1, k - 1))
-\* expected number of sites at which the derived allele is carried by b of the n chromosomes
+\* expected number of sites at which the derived allele is carried by b of the n chromosomes.
+\* The tables of I_j and of E[T_k] are tabulated once.  TLC evaluates LET definitions lazily and may re-evaluate them at every
+\* reference; a variable bound by a set constructor holds an evaluated value, hence the idiom Only({G(x) : x \in {e}}) = G(e).
+Only(S) == CHOOSE v \in S : TRUE
 ExpectedSFS(n, hist, nuanc, E, theta) ==
-    LET ET == [k \in 2..n |-> ETk(n, hist, nuanc, E, k)]
-    IN  [b \in 1..(n - 1) |-> RMul(RHalf(theta), RSum([k \in 2..n |-> RMul(RMul(RInt(k), ET[k]), Desc(n, k, b))]))]
+    Only({ Only({ RForce([b \in 1..(n - 1) |-> RMul(RHalf(theta), RSum([k \in 2..n |-> RMul(RMul(RInt(k), ET[k]), Desc(n, k, b))]))])
+                  : ET \in {RForce([k \in 2..n |-> ETkFrom(n, IJt, k)])} })
+           : IJt \in {RForce([j \in 2..n |-> IJ(hist, nuanc, E, j)])} })
 \* table for a history when only rational "exponentials" are wanted (model checking): E[e][j] given
 TableOK(n, hist, E) == /\ Len(E) = Len(hist)
                        /\ \A e \in 1..Len(hist) : \A j \in 2..n : RPos(E[e][j]) /\ RLeq(E[e][j], "1")
